@@ -2,6 +2,8 @@ package main
 
 import (
 	"fmt"
+	"go/ast"
+	"go/token"
 	"strings"
 
 	"golang.org/x/tools/go/ssa"
@@ -23,6 +25,7 @@ import (
 type lvCtx struct {
 	c    *Ctx
 	memo map[string]int // fn#param -> 1 visiting, 2 retains, 3 not
+	hdr  map[*ssa.Package]map[token.Pos]bool
 }
 
 // retainsParam: does fn keep its idx-th parameter (a pointer or a closure) beyond the call?
@@ -241,6 +244,14 @@ func loopVarEscapes(c *Ctx, rule string, pkgs []string) {
 					if body == nil {
 						continue
 					}
+					root := fn
+					for root.Parent() != nil {
+						root = root.Parent()
+					}
+					if root.Pkg == nil || !lv.loopHeaderVars(root)[al.Pos()] {
+						// declared before the loop, not by its header: shared on purpose
+						continue
+					}
 					loopsSeen++
 					why := lv.escapes(fn, al, body, 0)
 					if why == "" {
@@ -252,4 +263,46 @@ func loopVarEscapes(c *Ctx, rule string, pkgs []string) {
 		}
 	}
 	c.Pass(rule, strings.Join(pkgs, ",")+":loop-variables-stay-in-their-iteration", 0, fmt.Sprintf("%d heap-allocated loop variables examined", loopsSeen))
+}
+
+// loopHeaderVars: positions of the variables declared by a loop header (`for k, v := range`, `for i := ...`) in the
+// syntax of the given package. Only those are per-iteration variables in the programmer's mind; a `var x` declared before
+// a loop and assigned inside it is shared on purpose.
+func (lv *lvCtx) loopHeaderVars(fn *ssa.Function) map[token.Pos]bool {
+	if lv.hdr == nil {
+		lv.hdr = map[*ssa.Package]map[token.Pos]bool{}
+	}
+	if m, ok := lv.hdr[fn.Pkg]; ok {
+		return m
+	}
+	m := map[token.Pos]bool{}
+	lv.hdr[fn.Pkg] = m
+	p := lv.c.ByPath[fn.Pkg.Pkg.Path()]
+	if p == nil {
+		return m
+	}
+	for _, f := range p.Syntax {
+		ast.Inspect(f, func(n ast.Node) bool {
+			switch x := n.(type) {
+			case *ast.RangeStmt:
+				if x.Tok == token.DEFINE {
+					for _, e := range []ast.Expr{x.Key, x.Value} {
+						if id, ok := e.(*ast.Ident); ok {
+							m[id.Pos()] = true
+						}
+					}
+				}
+			case *ast.ForStmt:
+				if as, ok := x.Init.(*ast.AssignStmt); ok && as.Tok == token.DEFINE {
+					for _, e := range as.Lhs {
+						if id, ok := e.(*ast.Ident); ok {
+							m[id.Pos()] = true
+						}
+					}
+				}
+			}
+			return true
+		})
+	}
+	return m
 }
